@@ -179,4 +179,36 @@ PROPS = {
         "trusted_base": S_TRUSTED,
         "assumptions": S_ASSUME,
     },
+    "C05": {
+        "level": "other",
+        "level_text": "bounded symbolic execution of the real call path user -> contract -> contract (or the contract itself) with symbolic balances, attached funds and block time: on every feasible path the sender, env.contract, env.block and info.funds each entry point was told, and the callee's own balance queried at entry, equal the specification (terms decided by z3); uncovered funds (solver-chosen) must fail without running the callee; failed calls return funds",
+        "level_note": "trusts the symbolic Uint128/Timestamp semantics, the placeholder codec, z3; block heights come from {12345,12346,u64::MAX}; transaction.index is not checked",
+        "technique": "symbolic execution + SMT (z3) over the real code; counterexample replay on the unpatched build",
+        "explanation": S_EXPL,
+        "engines": [{"kind": "S"}],
+        "functions": ["WasmKeeper::{execute_wasm,process_wasm_msg_instantiate,send,call_execute,call_instantiate,call_reply,call_sudo,call_migrate,get_env,with_storage,execute_submsg,reply} (src/wasm.rs)", "App::{set_block,update_block,execute,wasm_sudo} and Executor helpers (src/app.rs, src/executor.rs)", "BankKeeper::execute (src/bank.rs)"],
+        "bounds": {
+            "quick": "chain user->K0->{K1 or K0 itself}; funds absent or one coin with a symbolic amount in [0,2^60] at each hop; balances symbolic; block set through set_block or update_block with symbolic seconds and height from {12345,12346,u64::MAX}; inner callee ok/failing; reply_on Never/Always; instantiate (with funds), sudo and migrate entry points",
+            "thorough": "same as quick",
+        },
+        "outside": "chains longer than 3 hops, several coins per funds list, env.transaction",
+        "trusted_base": S_TRUSTED,
+        "assumptions": S_ASSUME,
+    },
+    "C10": {
+        "level": "other",
+        "level_text": "bounded symbolic execution: (a) every query kind through App::wrap() on a symbolic staking/bank/wasm state leaves every byte of storage unchanged and answers the same twice; (b) a contract's bank/raw/smart queries on entry, after a completed sub-message and in the reply after a caught failure (failure chosen by the solver through overdrawing symbolic amounts) equal the specification's state at that point; (c) set/remove of a committed key by completed sibling sub-messages is what later queries in the same transaction see",
+        "level_note": "trusts the symbolic number semantics, the placeholder codec (answers are compared as rendered text, equal terms render equally), z3",
+        "technique": "symbolic execution + SMT (z3) over the real code; counterexample replay on the unpatched build",
+        "explanation": S_EXPL,
+        "engines": [{"kind": "S"}],
+        "functions": ["Querier for App, Router::query, RouterQuerier::raw_query (src/app.rs)", "WasmKeeper::{query,query_smart,query_raw,with_storage_readonly,with_storage} (src/wasm.rs)", "BankKeeper::query (src/bank.rs)", "StakeKeeper::query (src/staking.rs)", "StorageTransaction::get (src/transactions.rs)"],
+        "bounds": {
+            "quick": "16 query kinds (bank balance/all/supply; wasm smart, smart-with-nested-bank-query, raw, contract info, code info present/missing; staking bonded denom, all delegations, delegation, unknown validator, all validators, validator; custom) on a state reached by delegate, delegate, undelegate, advance with symbolic amounts; one transaction with two caught/uncaught sub-messages and 8 query points; 4 set/remove patterns on a committed key",
+            "thorough": "same as quick",
+        },
+        "outside": "IBC/stargate/grpc queries (C17 covers their routing), queries issued from inside query handlers beyond one nesting level",
+        "trusted_base": S_TRUSTED,
+        "assumptions": S_ASSUME,
+    },
 }
